@@ -6,24 +6,31 @@ Require Import BS.Bytes BS.Common BS.Api.
 Import ListNotations.
 Close Scope N_scope. Open Scope nat_scope.
 
+(* file contents are stored reversed (last byte first): the library appends far more often than
+   it reads, and an append then costs the length of what is appended. Every accessor below
+   presents the content in file order. *)
 Definition fsys := list (fname * list byte).
 
-Fixpoint fs_get (fs:fsys) (f:fname) : option (list byte) :=
+Fixpoint fs_raw (fs:fsys) (f:fname) : option (list byte) :=
   match fs with
   | [] => None
-  | (g, c) :: t => if bytes_eqb g f then Some c else fs_get t f
+  | (g, c) :: t => if bytes_eqb g f then Some c else fs_raw t f
   end.
+Definition fs_get (fs:fsys) (f:fname) : option (list byte) := option_map (@frev byte) (fs_raw fs f).
 Fixpoint fs_del (fs:fsys) (f:fname) : fsys :=
   match fs with
   | [] => []
   | (g, c) :: t => if bytes_eqb g f then fs_del t f else (g, c) :: fs_del t f
   end.
-Fixpoint fs_put (fs:fsys) (f:fname) (c:list byte) : fsys :=
+Fixpoint fs_put_raw (fs:fsys) (f:fname) (c:list byte) : fsys :=
   match fs with
   | [] => [(f, c)]
-  | (g, d) :: t => if bytes_eqb g f then (g, c) :: t else (g, d) :: fs_put t f c
+  | (g, d) :: t => if bytes_eqb g f then (g, c) :: t else (g, d) :: fs_put_raw t f c
   end.
-Definition fs_mem (fs:fsys) (f:fname) : bool := match fs_get fs f with Some _ => true | None => false end.
+Definition fs_put (fs:fsys) (f:fname) (c:list byte) : fsys := fs_put_raw fs f (frev c).
+(* the files with their contents in file order *)
+Definition fs_files (fs:fsys) : list (fname * list byte) := map (fun kv => (fst kv, frev (snd kv))) fs.
+Definition fs_mem (fs:fsys) (f:fname) : bool := match fs_raw fs f with Some _ => true | None => false end.
 
 (* ---- the monad ---- *)
 Definition M (A:Type) := fsys -> fsys * res A.
@@ -52,7 +59,7 @@ Definition mcatch {A} (m:M A) (h:err -> M A) : M A :=
 Definition get_fs : M fsys := fun fs => (fs, Ok fs).
 (* metadata().len() *)
 Definition file_len (f:fname) : M N :=
-  fun fs => match fs_get fs f with Some c => (fs, Ok (len c)) | None => (fs, Err EOther) end.
+  fun fs => match fs_raw fs f with Some c => (fs, Ok (len c)) | None => (fs, Err EOther) end.
 (* seek(Start(pos)) + read_exact(n bytes) *)
 Definition read_at (f:fname) (pos n:N) : M (list byte) :=
   fun fs => match fs_get fs f with
@@ -64,7 +71,7 @@ Definition read_from (f:fname) (pos:N) : M (list byte) :=
   fun fs => match fs_get fs f with Some c => (fs, Ok (drop pos c)) | None => (fs, Err EOther) end.
 (* write_all on a file opened in append mode *)
 Definition append (f:fname) (b:list byte) : M unit :=
-  fun fs => match fs_get fs f with Some c => (fs_put fs f (c ++ b), Ok tt) | None => (fs, Err EOther) end.
+  fun fs => match fs_raw fs f with Some c => (fs_put_raw fs f (rev_append b c), Ok tt) | None => (fs, Err EOther) end.
 (* File::set_len: truncate, or extend with zeros *)
 Definition set_file_len (f:fname) (n:N) : M unit :=
   fun fs => match fs_get fs f with
@@ -78,7 +85,7 @@ Definition exists_file (f:fname) : M bool := fun fs => (fs, Ok (fs_mem fs f)).
 Definition remove_file (f:fname) : M unit := fun fs => (fs_del fs f, Ok tt).
 (* std::fs::rename: replaces an existing target *)
 Definition rename_file (a b:fname) : M unit :=
-  fun fs => match fs_get fs a with
-            | Some c => (fs_put (fs_del fs a) b c, Ok tt)
+  fun fs => match fs_raw fs a with
+            | Some c => (fs_put_raw (fs_del fs a) b c, Ok tt)
             | None => (fs, Err EOther)
             end.
